@@ -53,7 +53,9 @@ def configs(tier):
                         for chk in ('array', 'list'):
                             if route == 'export' and chk == 'list' and ncl > 1:
                                 continue
-                            if m == 3 and (K == 3 or ncl == 3):
+                            if m == 3 and (K >= 2 or ncl >= 2):
+                                continue
+                            if K == 3 and ncl == 3:
                                 continue
                             if quick and m == 2 and ncl == 2 and sdt in ('int32', 'uint32'):
                                 continue
